@@ -149,7 +149,7 @@ pub struct RunOutcome<R> {
 
 /// Terminating executions of the scenarios used here (<= 4 threads x <= 3 calls on texts of <= 4
 /// lines) pass a few hundred yield points at most.
-pub const MAX_STEPS: usize = 20_000;
+pub const MAX_STEPS: usize = 5_000;
 
 pub enum Policy<'a> {
     /// follow these option indices, then always option 0 (= keep running the same worker)
